@@ -219,11 +219,12 @@ func (fs LocalFileSystem) Create(ctx context.Context, name string, body io.ReadC
 	if _, err := io.Copy(wc, body); err != nil {
 		wc.Close()
 		os.Remove(tmp)
-		return nil, false, err
+		// A write error names the temporary file
+		return nil, false, stripPath(err)
 	}
 	if err := wc.Close(); err != nil {
 		os.Remove(tmp)
-		return nil, false, err
+		return nil, false, stripPath(err)
 	}
 	if err := os.Rename(tmp, p); err != nil {
 		os.Remove(tmp)
